@@ -1,4 +1,122 @@
-import MementoModel.Model.Store
+import MementoModel.Lemmas.StoreLemmas
+import MementoModel.Lemmas.StoreData
+import MementoModel.Props.C05
+
+/-!
+# C07 — result blobs are content-addressed, deduplicated and immutable once referenced
+
+`Bytes` ids stand for byte strings with SHA-256 idealised as injective: the content key of bytes
+`b` is `K.content b`. All statements are over every admissible history of the C05 op language
+(which includes key-override writes to shared override keys).
+-/
+set_option linter.unusedVariables false
 namespace Memento.Store
-theorem placeholder_c07 : DS.empty.objs = [] := rfl
+
+/-- the state reached by a history from the empty store -/
+def reach (separate : Bool) (budget : Option Nat) (ops : List Op) : FsBackend :=
+  (runFs (FsBackend.init separate budget false) ops).1
+
+/-- the invariant `WF` holds along every admissible history -/
+theorem runFs_wf : ∀ (ops : List Op) (s : FsBackend), WF s → AdmissibleFs s ops → WF (runFs s ops).1
+  | [], _, h, _ => h
+  | op :: ops, s, h, hadm => by
+    simp only [runFs]
+    exact runFs_wf ops _ (fs_refines h op hadm.1).2.2 hadm.2
+
+theorem reach_wf (separate : Bool) (budget : Option Nat) (ops : List Op)
+    (hadm : AdmissibleFs (FsBackend.init separate budget false) ops) : WF (reach separate budget ops) :=
+  runFs_wf ops _ (fs_init_wf separate budget) hadm
+
+/-- "the bytes found under a content key always hash to that key": every version file of a content
+    key `c/<h>` holds exactly the bytes `h` -/
+theorem content_key_integrity (separate : Bool) (budget : Option Nat) (ops : List Op)
+    (hadm : AdmissibleFs (FsBackend.init separate budget false) ops) :
+    ∀ h v c, alookup (reach separate budget ops).ds.objs (.content h, v) = some c → c = .blob h := by
+  exact (reach_wf separate budget ops hadm).ds.contentOk
+
+/-- "results that serialize to the same bytes, whichever functions produced them, share one
+    stored object instead of creating another": a content key never has two version files -/
+theorem one_object_per_content_key (separate : Bool) (budget : Option Nat) (ops : List Op)
+    (hadm : AdmissibleFs (FsBackend.init separate budget false) ops) (h : Bytes) :
+    ((reach separate budget ops).ds.objs.filter (fun p => p.1.1 == K.content h)).length ≤ 1 := by
+  exact (reach_wf separate budget ops hadm).ds.content_unique h
+
+/-- memoizing bytes that are already stored (no key override) creates no data object at all -/
+theorem memoize_existing_bytes_writes_no_data (s : FsBackend) (h : WF s) (fn arg mem b sz wr)
+    (hadm : FsBackend.admissible s (.memoize fn arg none mem (some b) sz wr))
+    (hex : s.ds.existsNV (.content b) = true) :
+    (FsBackend.step s (.memoize fn arg none mem (some b) sz wr)).1.ds.objs.filter (fun p => !p.1.1.isMetaArea)
+      = s.ds.objs.filter (fun p => !p.1.1.isMetaArea) := by
+  rw [step_memoize s h.writable, FsBackend.codecStore_existing s.ds b hex]
+  exact DS.dataObjs_output_meta s.ds _ _ rfl
+
+/-- which operations can remove data-area objects: only `forget_everything` on a store whose
+    metadata lives in the same root -/
+def Op.wipesData (separate : Bool) : Op → Bool
+  | .fall => !separate
+  | _ => false
+
+/-- "a memento keeps reading exactly the bytes that were stored when it was created, whatever is
+    memoized, overwritten under the same override key, or forgotten afterwards": a data-area
+    version file, once written, is never modified or removed by any other operation -/
+theorem data_objects_immutable (s : FsBackend) (op : Op) (h : WF s) (hadm : FsBackend.admissible s op)
+    (hw : Op.wipesData s.separate op = false) (k : K) (v : Ver) (c : Content)
+    (hk : k.isMetaArea = false) (hc : s.ds.inputV k v = some c) :
+    (FsBackend.step s op).1.ds.inputV k v = some c := by
+  have hw' := h.writable
+  obtain ⟨f1, f2, f3⟩ := FsBackend.step_forget_ds s hw'
+  cases op with
+  | fcall fn arg =>
+    rw [f1, DS.inputV_deleteWhere _ _ _ _ ?_]; exact hc
+    cases hs : (k.call? == some (fn, arg)) with
+    | false => rfl
+    | true => rw [FsBackend.call_sel_meta fn arg k hs] at hk; cases hk
+  | ffn fn =>
+    rw [f2, DS.inputV_deleteWhere _ _ _ _ ?_]; exact hc
+    cases hs : (k.fn? == some fn) with
+    | false => rfl
+    | true => rw [FsBackend.fn_sel_meta fn k hs] at hk; cases hk
+  | fall =>
+    have hsep : s.separate = true := by simpa [Op.wipesData] using hw
+    rw [f3, DS.inputV_deleteWhere _ _ _ _ ?_]; exact hc
+    simp [hsep, hk]
+  | _ => exact FsBackend.step_objsExt h _ hadm trivial _ _ hc
+
+/-- the same along every history that contains no data-wiping operation -/
+theorem memento_reads_own_bytes (s : FsBackend) (ops : List Op) (h : WF s) (hadm : AdmissibleFs s ops)
+    (hw : ∀ op ∈ ops, Op.wipesData s.separate op = false) (k : K) (v : Ver) (c : Content)
+    (hk : k.isMetaArea = false) (hc : s.ds.inputV k v = some c) :
+    (runFs s ops).1.ds.inputV k v = some c := by
+  induction ops generalizing s with
+  | nil => exact hc
+  | cons op ops ih =>
+    simp only [runFs]
+    have h1 := fs_refines h op hadm.1
+    apply ih _ h1.2.2 hadm.2
+    · intro op' hop'
+      rw [FsBackend.step_separate]
+      exact hw op' (List.mem_cons_of_mem _ hop')
+    · exact data_objects_immutable s op h hadm.1 (hw op List.mem_cons_self) k v c hk hc
+
+/-- forget_call / forget_function never delete data objects (nor does forget_everything when the
+    metadata has its own root) -/
+theorem forget_deletes_no_data (s : FsBackend) (op : Op) (h : WF s)
+    (hop : (∃ fn arg, op = .fcall fn arg) ∨ (∃ fn, op = .ffn fn) ∨ (op = .fall ∧ s.separate = true)) :
+    (FsBackend.step s op).1.ds.objs.filter (fun p => !p.1.1.isMetaArea)
+      = s.ds.objs.filter (fun p => !p.1.1.isMetaArea) := by
+  obtain ⟨f1, f2, f3⟩ := FsBackend.step_forget_ds s h.writable
+  rcases hop with ⟨fn, arg, rfl⟩ | ⟨fn, rfl⟩ | ⟨rfl, hsep⟩
+  · rw [f1]; exact DS.dataObjs_deleteWhere _ _ (FsBackend.call_sel_meta fn arg)
+  · rw [f2]; exact DS.dataObjs_deleteWhere _ _ (FsBackend.fn_sel_meta fn)
+  · rw [f3]; exact DS.dataObjs_deleteWhere _ _ (by intro k hk; simpa [hsep] using hk)
+
+/-! non-vacuity -/
+private def demo7 : List Op :=
+  [.memoize 1 1 none 10 (some 7) 40 false, .memoize 2 1 none 11 (some 7) 40 false,   -- same bytes, two functions
+   .memoize 1 2 (some 1) 12 (some 8) 40 false, .memoize 2 2 (some 1) 13 (some 9) 40 false, -- override key rewritten
+   .ffn 2, .lookread 1 1, .lookread 1 2]
+
+example : ((reach false none demo7).ds.objs.filter (fun p => p.1.1 == K.content 7)).length = 1 := by decide
+example : (runFs (FsBackend.init false none false) demo7).2.drop 5 = [.val (some (some 7)), .val (some (some 8))] := by decide
+
 end Memento.Store
